@@ -760,28 +760,36 @@ Lemma shim_single ca x :
   hok ca ->
   shim_check ca [x] =
   if h_height x <? h_height ca then ShimSkip
+  else if (h_height x =? h_height ca) && (h_id x =? h_id ca) then ShimOk ca
   else if h_height x =? h_height ca + 1 then ShimOk x else ShimNonAdj.
 Proof.
   intros Hk. unfold shim_check, shim_walk. rewrite (wrap_succ _ Hk).
   destruct (N.leb_spec (h_height ca) (h_height x)), (N.ltb_spec (h_height x) (h_height ca)); try lia; [|reflexivity].
+  destruct ((h_height x =? h_height ca) && (h_id x =? h_id ca)); [reflexivity|].
   destruct (h_height x =? h_height ca + 1); reflexivity.
 Qed.
+
+Lemma set_cache_same c : c <| c_cache := c_cache c |> = c.
+Proof. apply cfg_ext; reflexivity. Qed.
 
 Lemma slh_cases x c :
   hok (c_cache c) ->
   (h_height x < h_height (c_cache c) /\ slh x c = c <| c_store ::= rs_append [x] |>) \/
-  (h_height x = h_height (c_cache c) /\ slh x c = c) \/
+  (h_height x = h_height (c_cache c) /\ (slh x c = c \/ slh x c = c <| c_store ::= rs_append [x] |>)) \/
   (h_height x = h_height (c_cache c) + 1 /\ slh x c = c <| c_cache := x |> <| c_store ::= rs_append [x] |>) \/
   (h_height (c_cache c) + 1 < h_height x /\ slh x c = c <| c_pend ::= ranges_add x |> <| c_trig := true |>).
 Proof.
   intros Hk. unfold slh. rewrite (shim_single _ x Hk).
   destruct (N.ltb_spec (h_height x) (h_height (c_cache c))) as [Hlt|Hge].
   - left. split; [exact Hlt|]. cbn. destruct (N.leb_spec (h_height x) (h_height (c_cache c))); [reflexivity|lia].
-  - destruct (N.eqb_spec (h_height x) (h_height (c_cache c) + 1)) as [He|Hne].
-    + right; right; left. split; [exact He|]. cbn. rewrite N.leb_refl. reflexivity.
-    + destruct (N.leb_spec (h_height x) (h_height (c_cache c))) as [Hle|Hgt].
-      * right; left. split; [lia|reflexivity].
-      * right; right; right. split; [lia|reflexivity].
+  - destruct ((h_height x =? h_height (c_cache c)) && (h_id x =? h_id (c_cache c))) eqn:Ed.
+    + apply Bool.andb_true_iff in Ed. destruct Ed as [Ed _]. apply N.eqb_eq in Ed.
+      right; left. split; [exact Ed|]. right. cbn. rewrite Ed, N.leb_refl. rewrite set_cache_same. reflexivity.
+    + destruct (N.eqb_spec (h_height x) (h_height (c_cache c) + 1)) as [He|Hne].
+      * right; right; left. split; [exact He|]. cbn. rewrite N.leb_refl. reflexivity.
+      * destruct (N.leb_spec (h_height x) (h_height (c_cache c))) as [Hle|Hgt].
+        -- right; left. split; [lia|left; reflexivity].
+        -- right; right; right. split; [lia|reflexivity].
 Qed.
 
 (** localHead is the maximum of what is pending, or the cache *)
@@ -981,7 +989,7 @@ Proof.
 Qed.
 
 Lemma Jl_dup St ca P st tr pc x :
-  good ca -> rinv P -> good x -> h_height x < h_height ca ->
+  good ca -> rinv P -> good x -> h_height x <= h_height ca ->
   (forall y, In y (ranges_all P) -> h_height y < h_height x) ->
   match pc with LApp2 (AKCached _) _ | LRem _ _ => True | _ => False end ->
   Jl' St ca P st tr pc -> Jl' (rs_append [x] St) ca P st tr pc.
@@ -1019,8 +1027,9 @@ Proof.
   { intros Hag. destruct Hlh as [[E El]|[Hin Hm]].
     - rewrite El in Hlt. split; [exact Hlt|intros _; exact E].
     - specialize (Hag _ Hin). split; [lia|intros; lia]. }
-  destruct (slh_cases x c Hck) as [[Hh E]|[[Hh E]|[[Hh E]|[Hh E]]]]; rewrite E; clear E.
-  - (* x below the cache: only in the stale window; a duplicate is written *)
+  assert (Hdup : h_height x <= h_height (c_cache c) -> J (c <| c_store ::= rs_append [x] |>)).
+  { (* x at or below the cache: only in the stale window; a duplicate is written *)
+    intros Hh.
     assert (Hpc : match c_loop c with LApp2 (AKCached _) _ | LRem _ _ => True | _ => False end).
     { pose proof (Jl_all_gt _ _ _ _ _ _ Hl) as Hag.
       destruct (c_loop c) as [| |p|from to|from to|k from to|k hs|k hs nh|k hs|oto lst|]; try exact I;
@@ -1032,8 +1041,11 @@ Proof.
     + exact Hpg.
     + exact Hth.
     + exact Hmu.
-    + apply Jl_dup; auto; split; assumption.
-  - (* x at the cache height: nothing happens *) exact HJ.
+    + apply Jl_dup; auto; split; assumption. }
+  destruct (slh_cases x c Hck) as [[Hh E]|[[Hh [E|E]]|[[Hh E]|[Hh E]]]]; rewrite E; clear E.
+  - apply Hdup. lia.
+  - (* x at the cache height but another header: refused, nothing happens *) exact HJ.
+  - apply Hdup. lia.
   - (* adjacent to the cache: stored directly *)
     constructor; cbn.
     + split; assumption.
@@ -1056,7 +1068,9 @@ Qed.
 (** *** the sync loop's steps in the honest world *)
 
 Lemma shim_walk_cons c a r :
-  shim_walk c (a :: r) = if h_height a =? wrap64 (h_height c + 1) then shim_walk a r else None.
+  shim_walk c (a :: r) =
+  if (h_height a =? h_height c) && (h_id a =? h_id c) then shim_walk c r
+  else if h_height a =? wrap64 (h_height c + 1) then shim_walk a r else None.
 Proof. reflexivity. Qed.
 
 Lemma shim_walk_consec c a l d :
@@ -1064,6 +1078,7 @@ Lemma shim_walk_consec c a l d :
   shim_walk c (a :: l) = Some (last (a :: l) d).
 Proof.
   revert c a. induction l as [|b l IH]; intros c a Hc Hk Ha; rewrite shim_walk_cons;
+    (replace (h_height a =? h_height c) with false by (symmetry; apply N.eqb_neq; lia)); cbn [andb];
     rewrite wrap_succ by (rewrite <- Ha; pose proof (Hk a (or_introl eq_refl)) as H; unfold hok in H; lia);
     rewrite Ha, N.eqb_refl.
   - reflexivity.
@@ -1681,9 +1696,10 @@ Lemma local_head_slh x c :
   J c -> good x -> h_height (local_head c) < h_height x -> h_height (local_head (slh x c)) <= h_height x.
 Proof.
   intros HJ [Hxc Hxk] Hlt. pose proof HJ as [[Hcc Hck] Hri Hpg Hth Hmu Hl].
-  destruct (slh_cases x c Hck) as [[Hh E]|[[Hh E]|[[Hh E]|[Hh E]]]]; rewrite E; clear E.
+  destruct (slh_cases x c Hck) as [[Hh E]|[[Hh [E|E]]|[[Hh E]|[Hh E]]]]; rewrite E; clear E.
   - unfold local_head in *. cbn. lia.
   - lia.
+  - unfold local_head in *. cbn. lia.
   - unfold local_head in *. cbn. destruct (ranges_head (c_pend c)); lia.
   - assert (Hgt : forall y, In y (ranges_all (c_pend c)) -> h_height y < h_height x).
     { intros y Hy. destruct (local_head_spec c Hri) as [[E0 _]|[_ Hm]]; [rewrite E0 in Hy; destruct Hy|]. specialize (Hm y Hy). lia. }
@@ -1811,7 +1827,7 @@ Lemma learn_wakes x c :
   J c -> good x -> h_height (local_head c) < h_height x -> ~ waiting_after_error (slh x c).
 Proof.
   intros HJ [Hxc Hxk] Hlt [[E1 E2] E3]. pose proof HJ as [[Hcc Hck] Hri Hpg Hth Hmu Hl].
-  destruct (slh_cases x c Hck) as [[Hh E]|[[Hh E]|[[Hh E]|[Hh E]]]]; rewrite E in *; clear E; cbn in E1, E2, E3;
+  destruct (slh_cases x c Hck) as [[Hh E]|[[Hh [E|E]]|[[Hh E]|[Hh E]]]]; rewrite E in *; clear E; cbn in E1, E2, E3;
     try discriminate E2.
   all: rewrite E1 in Hl; cbn [Jl'] in Hl; destruct Hl as (A & B & C & D & K);
     specialize (K E3); destruct (local_head_spec c Hri) as [[E0 _]|[Hin _]]; [contradiction|];
@@ -1822,7 +1838,7 @@ Lemma slh_newest x c :
   J c -> good x -> h_height (local_head c) < h_height x -> h_height x <= newest_height (slh x c).
 Proof.
   intros HJ [Hxc Hxk] Hlt. pose proof HJ as [[Hcc Hck] Hri Hpg Hth Hmu Hl]. unfold newest_height.
-  destruct (slh_cases x c Hck) as [[Hh E]|[[Hh E]|[[Hh E]|[Hh E]]]]; rewrite E; clear E; cbn; try lia.
+  destruct (slh_cases x c Hck) as [[Hh E]|[[Hh [E|E]]|[[Hh E]|[Hh E]]]]; rewrite E; clear E; cbn; try lia.
   assert (Hgt : forall y, In y (ranges_all (c_pend c)) -> h_height y < h_height x).
   { intros y Hy. destruct (local_head_spec c Hri) as [[E0 _]|[_ Hm]]; [rewrite E0 in Hy; destruct Hy|]. specialize (Hm y Hy). lia. }
   unfold local_head. cbn.
